@@ -2,7 +2,9 @@ import ZV.Model.C14
 /-! line protocol for C14:
     `c14 <serial> <n|e|fw|lw> <entries> <exts> <hdr>`
     entries `-` | `serial:time,…`; exts `-` | `1.2.3/<0|1>/<hex>,…`;
-    hdr `version/thisUpdate/nextUpdate/<sig hex>/<issuer>`; issuer `-` | RDNs joined by `;`, attributes by `+`, empty RDN `~`. -/
+    hdr `version/thisUpdate/nextUpdate/<sig hex>/<issuer>`; issuer `-` | RDNs joined by `;`, attributes by `+`, empty RDN `~`.
+    `c14 seq <serial>:<mode>,… <entries> <exts> <hdr>`: the lookups made one after the other on ONE CertificateList object
+    (caches built once from it); output = the single-lookup outputs joined by ` | `, each computed on the original CRL. -/
 namespace ZV.C14
 
 def parseEntry (s : String) : Option Entry :=
@@ -43,25 +45,45 @@ def showRev (r : RevData) : String :=
   " sig=" ++ toHex r.sig ++ " rdns=" ++ showRDNs r.issuerRDNs ++
   " names=" ++ (if r.issuerNames.isEmpty then "-" else "+".intercalate r.issuerNames)
 
+def cacheOf (mode : String) (es : List Entry) : Option (Option Cache) :=
+  if mode == "n" then some none
+  else if mode == "e" then some (some [])
+  else if mode == "fw" then some (some (firstWins es))
+  else if mode == "lw" then some (some (lastWins es))
+  else none
+
+def parseCRL (entries exts hdr : String) : Option CRL :=
+  match parseList parseEntry "," entries, parseList parseExt "," exts, hdr.splitOn "/" with
+  | some es, some xs, [v, tu, nu, sg, iss] =>
+    match parseInt v, parseInt tu, parseInt nu, ofHex sg, parseList parseRDN ";" iss with
+    | some v, some tu, some nu, some sg, some iss => some ⟨v, tu, nu, iss, sg, es, xs⟩
+    | _, _, _, _, _ => none
+  | _, _, _ => none
+
+def parseQuery (es : List Entry) (s : String) : Option (Int × Option Cache) :=
+  match s.splitOn ":" with
+  | [a, m] =>
+    match parseInt a, cacheOf m es with
+    | some x, some c => some (x, c)
+    | _, _ => none
+  | _ => none
+
 def handle (args : List String) : String :=
   match args with
+  | ["seq", queries, entries, exts, hdr] =>
+    match parseCRL entries exts hdr with
+    | some crl =>
+      match (queries.splitOn ",").mapM (parseQuery crl.entries) with
+      | some qs => " | ".intercalate ((checkSeq crl qs).map showRev)
+      | none => "bad-op"
+    | none => "bad-op"
   | [serial, mode, entries, exts, hdr] =>
-    match parseInt serial, parseList parseEntry "," entries, parseList parseExt "," exts, hdr.splitOn "/" with
-    | some s, some es, some xs, [v, tu, nu, sg, iss] =>
-      match parseInt v, parseInt tu, parseInt nu, ofHex sg, parseList parseRDN ";" iss with
-      | some v, some tu, some nu, some sg, some iss =>
-        let crl : CRL := ⟨v, tu, nu, iss, sg, es, xs⟩
-        let cache : Option (Option Cache) :=
-          if mode == "n" then some none
-          else if mode == "e" then some (some [])
-          else if mode == "fw" then some (some (firstWins es))
-          else if mode == "lw" then some (some (lastWins es))
-          else none
-        match cache with
-        | some c => showRev (check crl s c)
-        | none => "bad-op"
-      | _, _, _, _, _ => "bad-op"
-    | _, _, _, _ => "bad-op"
+    match parseInt serial, parseCRL entries exts hdr with
+    | some s, some crl =>
+      match cacheOf mode crl.entries with
+      | some c => showRev (check crl s c)
+      | none => "bad-op"
+    | _, _ => "bad-op"
   | _ => "bad-op"
 
 end ZV.C14
